@@ -468,4 +468,22 @@ theorem solve_emission_first (hinv : InvComplete) (target : STab) (hg : target.G
               rw [w1] at this
               rw [this]; exact hf
 
+/-! ### every recorded operation is well-formed -/
+
+theorem ggen_wf (np ne : Nat) (T0 : PSet) (c : List SOp) (S : PSet) (h : GGen np ne T0 c S) : ∀ o, o ∈ c → o.WF np ne := by
+  induction c generalizing S with
+  | nil => intro o ho; cases ho
+  | cons op rest ih =>
+    obtain ⟨hpre, hall⟩ := h
+    intro o ho
+    rcases List.mem_cons.mp ho with e | e
+    · rw [e]; exact hpre.1
+    · exact ih _ (hall false) o e
+
+/-- every operation of the circuit `solve` records acts on registers of the circuit (emitters `< ne`, photons `< np`, distinct wires
+    for two-qubit gates) -/
+theorem solve_ops_wf (target : STab) (hg : target.Good) (s : St) (h : solve target = .ok s) :
+    ∀ o, o ∈ s.circ → o.WF target.n s.ne :=
+  ggen_wf _ _ _ _ _ (solve_inv target hg s h).gen
+
 end Graphiq.Solver
